@@ -81,6 +81,24 @@ impl<'i> Parser<'i> {
     }
 }
 
+#[cfg(feature = "verif-hooks")]
+#[allow(missing_docs)]
+impl<'i> Parser<'i> {
+    /// Verification hook (feature `verif-hooks`): parser positioned inside a message.
+    pub fn verif_with_pending(input: &'i [u8], msg_input: &'i [u8], pending: u64) -> Self {
+        Parser {
+            input,
+            msg_input,
+            pending_list_entries: pending as _,
+        }
+    }
+
+    /// Verification hook (feature `verif-hooks`): (remaining input length, countdown).
+    pub fn verif_state(&self) -> (usize, u64) {
+        (self.input.len(), self.pending_list_entries as u64)
+    }
+}
+
 impl<'i> Iterator for Parser<'i> {
     type Item = Result<ParseEvent<'i>, ParseError>;
 
